@@ -138,7 +138,7 @@ Proof. exact items_loop_one_per_column. Qed.
 Print Assumptions c05_select_items_one_item_per_column.
 
 Theorem c05_select_items_names_in_order : forall lower reserved supported omit_prefix cols st ex items st',
-  items_loop lower reserved supported omit_prefix st ex cols = Some (items, st') -> NoDup (map creq_cid cols) ->
+  items_loop lower reserved supported omit_prefix st ex cols = Some (items, st') ->
   Forall2 (fun r it => match r with
                        | CCol c _ => forall x, nget (cnames st) c = Some x -> item_name it = Some x
                        | CStar _ _ => True
@@ -165,19 +165,18 @@ Print Assumptions c05_select_items_bounds.
 Definition s_a : str := [97%N].
 Theorem c05_select_items_drops_column_refuted :
   exists st ex cols items final st',
-    select_items lower_ascii [] None true false st ex cols = Some (items, final, st') /\ NoDup (map creq_cid cols) /\
+    select_items lower_ascii [] None true false st ex cols = Some (items, final, st') /\
     length cols = 2 /\ length items = 2 /\ length final = 1.
 Proof.
   exists (mkn [(1, s_a); (2, s_a)] 0%N), [], [CCol 1 (ECompound [s_a]); CCol 2 (ECompound [s_a])].
-  eexists. eexists. eexists. split; [vm_compute; reflexivity|].
-  split; [repeat constructor; cbn; intuition discriminate | repeat split].
+  eexists. eexists. eexists. split; [vm_compute; reflexivity | repeat split].
 Qed.
 Print Assumptions c05_select_items_drops_column_refuted.
 
 (* composition with translate_wildcards: on a dialect with EXCLUDE / EXCEPT the emitted SELECT list shows exactly the
    requested columns; without it nothing requested is lost (and helper columns may be shown: c05_helpers_exposed_refuted) *)
 Theorem c05_select_list_shows_requested : forall lower reserved k omit_prefix orig_of shape_of table_of name_of cols st items st',
-  wf_cols orig_of [] cols -> NoDup (fst (translate_wildcards cols)) ->
+  wf_cols orig_of [] cols -> NoDup (filter (is_star orig_of) (fst (translate_wildcards cols))) ->
   items_loop lower reserved (Some k) omit_prefix st (excluded_of name_of (snd (translate_wildcards cols)))
              (reqs_of orig_of shape_of table_of (fst (translate_wildcards cols))) = Some (items, st') ->
   forall x, In x (items_show orig_of items) <-> In x (map fst cols).
@@ -185,7 +184,7 @@ Proof. exact select_list_shows_requested. Qed.
 Print Assumptions c05_select_list_shows_requested.
 
 Theorem c05_select_list_no_loss : forall lower reserved omit_prefix orig_of shape_of table_of name_of cols st items st',
-  wf_cols orig_of [] cols -> NoDup (fst (translate_wildcards cols)) ->
+  wf_cols orig_of [] cols -> NoDup (filter (is_star orig_of) (fst (translate_wildcards cols))) ->
   items_loop lower reserved None omit_prefix st (excluded_of name_of (snd (translate_wildcards cols)))
              (reqs_of orig_of shape_of table_of (fst (translate_wildcards cols))) = Some (items, st') ->
   forall x, In x (map fst cols) -> In x (items_show orig_of items).
